@@ -8,6 +8,7 @@ Decided:
          and a system flow N * v gives the per-borehole flow v
   R20.2  siblings: the two retrieve_flow implementations (Bisection1D, RowWise) agree path by path; every
          FlowConfigType member is handled, anything else raises
+  R20.5  routing: every constructor link from the design to retrieve_flow binds flow_type to the caller's own flow type
   R20.3  one field: in Bisection1D.__init__ and both initialize_ghe the same coordinates go to
          retrieve_flow, to the g-function calculation and (through it, as bore_locations) to the GHE; the
          mass flow given to the g-function is retrieve_flow's, the system flow given to the GHE is
@@ -149,6 +150,7 @@ def check(prog: Program, tier: str) -> Result:
         res.violation("R20.1", "bhe-flow", prog.loc(gi, calls[0]) if calls else prog.loc(gi, gi.node), q, "get_bhe_object is not given the per-borehole mass flow of this field")
 
     _one_field(prog, res)
+    _check_routing(prog, res)
     return res
 
 
@@ -267,7 +269,98 @@ def _one_field(prog: Program, res: Result):
         res.violation("R20.3", "network-flow", prog.loc(fi, fi.node), q, "the network mass flow handed to pygfunction is not (number of boreholes of the network, one per coordinate) * m_flow_borehole")
 
 
+def _check_routing(prog: Program, res: Result):
+    """R20.5: the user's flow type reaches retrieve_flow.  Chain: GHEManager.set_design -> Design*(flow_type=..) ->
+    DesignBase.flow_type -> <search class>(flow_type=self.flow_type) -> [super().__init__(flow_type=flow_type)] ->
+    self.flow_type = flow_type -> retrieve_flow reads self.flow_type.  Every link is a call whose `flow_type` parameter must
+    be bound to the caller's own flow type; a link that leaves it out falls back to a default (or raises) and a system flow
+    is then treated as a per-borehole flow."""
+    SRm = "ghedesigner.search_routines"
+    DES = "ghedesigner.design"
+    n_links = 0
+    search_classes = {c.name: c for q, c in prog.classes.items() if q.startswith(SRm + ".") and "__init__" in c.methods and "flow_type" in c.methods["__init__"].params()}
+    if len(search_classes) < 3:
+        raise AnalysisError(f"{SRm}: search classes with a flow_type parameter not found")
+    for cname, c in sorted(search_classes.items()):
+        init = c.methods["__init__"]
+        # (a) stored, or forwarded to the base constructor, from the class's own parameter
+        stores = [n for n in ast.walk(init.node) if isinstance(n, ast.Assign) and any(attr_chain(t) == "self.flow_type" for t in n.targets)]
+        supers = [n for n in ast.walk(init.node) if isinstance(n, ast.Call) and isinstance(n.func, ast.Attribute) and n.func.attr == "__init__"]
+        ok_store = any(isinstance(n.value, ast.Name) and n.value.id == "flow_type" for n in stores)
+        fwd = []
+        for sc in supers:
+            base = None
+            fv = sc.func.value
+            if isinstance(fv, ast.Call) and attr_chain(fv.func) == "super":
+                for b_ in prog.mro(f"{SRm}.{cname}")[1:]:
+                    if "__init__" in b_.methods:
+                        base = b_.methods["__init__"]
+                        break
+            elif attr_chain(fv) in search_classes:
+                base = search_classes[attr_chain(fv)].methods["__init__"]
+            if base is None or "flow_type" not in base.params():
+                continue
+            args = sc.args[1:] if (sc.args and isinstance(sc.args[0], ast.Name) and sc.args[0].id == "self" and not isinstance(fv, ast.Call)) else sc.args
+            call2 = ast.Call(func=sc.func, args=list(args), keywords=sc.keywords)
+            b = bind_args(base, call2)
+            fwd.append((sc, b.get("flow_type")))
+        n_links += 1
+        if fwd:
+            ok = all(isinstance(v, ast.Name) and v.id == "flow_type" for _, v in fwd)
+            res.ob("R20.5", f"{cname}.__init__ forwards its flow_type to the base constructor", ok, prog.loc(init, fwd[0][0]))
+            if not ok:
+                got = [ast.unparse(v) if v is not None else "<left out>" for _, v in fwd]
+                res.violation("R20.5", f"routing|{cname}|super|{got}", prog.loc(init, fwd[0][0]), init.qualname,
+                              f"{cname}.__init__ calls the base constructor with flow_type = {got}: the caller's flow type is not forwarded, a system flow is silently treated as the default (per-borehole) one")
+        else:
+            res.ob("R20.5", f"{cname}.__init__ stores its flow_type parameter in self.flow_type", ok_store, prog.loc(init, init.node))
+            if not ok_store:
+                res.violation("R20.5", f"routing|{cname}|store", prog.loc(init, init.node), init.qualname, f"{cname}.__init__ does not store its flow_type parameter in self.flow_type")
+    # (b) every construction of a search class in the design module passes the design's own flow type
+    for q, fi in sorted(prog.funcs.items()):
+        if not q.startswith(DES + "."):
+            continue
+        for cl in ast.walk(fi.node):
+            if isinstance(cl, ast.Call) and attr_chain(cl.func) in search_classes:
+                b = bind_args(search_classes[attr_chain(cl.func)].methods["__init__"], cl)
+                v = b.get("flow_type")
+                n_links += 1
+                ok = v is not None and ast.unparse(v) == "self.flow_type"
+                res.ob("R20.5", f"{q.replace('ghedesigner.', '')}: {attr_chain(cl.func)}(.., flow_type=self.flow_type)", ok, prog.loc(fi, cl))
+                if not ok:
+                    res.violation("R20.5", f"routing|{q}|{attr_chain(cl.func)}|{ast.unparse(v) if v is not None else 'left-out'}", prog.loc(fi, cl), q,
+                                  f"{attr_chain(cl.func)} is constructed with flow_type = {ast.unparse(v) if v is not None else '<left out>'} instead of the design's own flow type")
+    # (c) the design stores what it is given, and subclasses forward it
+    db = prog.method(f"{DES}.DesignBase", "__init__")
+    ok = any(isinstance(n, ast.Assign) and any(attr_chain(t) == "self.flow_type" for t in n.targets) and isinstance(n.value, ast.Name) and n.value.id == "flow_type" for n in ast.walk(db.node))
+    res.ob("R20.5", "DesignBase.__init__ stores its flow_type parameter", ok, prog.loc(db, db.node))
+    if not ok:
+        res.violation("R20.5", "routing|DesignBase|store", prog.loc(db, db.node), db.qualname, "DesignBase.__init__ does not store its flow_type parameter in self.flow_type")
+    for q, c in sorted(prog.classes.items()):
+        if not q.startswith(DES + ".") or c.name == "DesignBase" or "__init__" not in c.methods:
+            continue
+        init = c.methods["__init__"]
+        if "flow_type" not in init.params():
+            continue
+        for sc in ast.walk(init.node):
+            if isinstance(sc, ast.Call) and isinstance(sc.func, ast.Attribute) and sc.func.attr == "__init__" and isinstance(sc.func.value, ast.Call) and attr_chain(sc.func.value.func) == "super":
+                b = bind_args(db, sc)
+                v = b.get("flow_type")
+                n_links += 1
+                ok = isinstance(v, ast.Name) and v.id == "flow_type"
+                res.ob("R20.5", f"{c.name}.__init__ forwards its flow_type to DesignBase", ok, prog.loc(init, sc))
+                if not ok:
+                    res.violation("R20.5", f"routing|{c.name}|super|{ast.unparse(v) if v is not None else 'left-out'}", prog.loc(init, sc), init.qualname,
+                                  f"{c.name}.__init__ passes flow_type = {ast.unparse(v) if v is not None else '<left out>'} to DesignBase")
+    res.count("flow_type_links", n_links)
+    res.floor("flow_type_links", 14)
+
+
 VARIANTS = [
+    Variant("BisectionZD no longer forwards flow_type, the base default hides it (seeded C20)", "break",
+            [(SR, "        flow_type: FlowConfigType.BOREHOLE,\n        max_iter=15,\n        disp=False,\n        search=True,", "        flow_type: FlowConfigType = FlowConfigType.BOREHOLE,\n        max_iter=15,\n        disp=False,\n        search=True,"),
+             (SR, "            method=method,\n            flow_type=flow_type,\n            max_iter=max_iter,\n            disp=disp,\n            search=False,\n            field_type=field_type,\n            load_years=load_years,\n        )\n\n        self.coordinates_domain_nested = coordinates_domain_nested",
+              "            method=method,\n            max_iter=max_iter,\n            disp=disp,\n            search=False,\n            field_type=field_type,\n            load_years=load_years,\n        )\n\n        self.coordinates_domain_nested = coordinates_domain_nested")], "R20.5"),
     Variant("SYSTEM branch of Bisection1D forgets to divide by the number of boreholes", "break",
             [(SR, "            v_flow_system = self.V_flow\n            v_flow_borehole = self.V_flow / len(coordinates)\n            m_flow_borehole = v_flow_borehole / 1000.0 * rho\n        else:\n            raise ValueError(\"The flow argument should be either `borehole`\" \"or `system`.\")\n        return v_flow_system, m_flow_borehole\n\n    def initialize_ghe(self, coordinates, h, field_specifier=\"N/A\"):\n        v_flow_system, m_flow_borehole = self.retrieve_flow(coordinates, self.ghe.bhe.fluid.rho)",
               "            v_flow_system = self.V_flow\n            v_flow_borehole = self.V_flow\n            m_flow_borehole = v_flow_borehole / 1000.0 * rho\n        else:\n            raise ValueError(\"The flow argument should be either `borehole`\" \"or `system`.\")\n        return v_flow_system, m_flow_borehole\n\n    def initialize_ghe(self, coordinates, h, field_specifier=\"N/A\"):\n        v_flow_system, m_flow_borehole = self.retrieve_flow(coordinates, self.ghe.bhe.fluid.rho)")], "R20.1"),
